@@ -258,7 +258,7 @@ def generate(ctx, cfg):
 
 # the shadowing factor is exp(.) - an uninterpreted function in the solver; the harness' differential cross-check evaluates symbolic results
 # under a solver model and cannot interpret it, so the log-normal configurations are registered without that cross-check
-obligation("C13.generate_lognormal", function=FF + "_generate_fading_coefficients", configs=_gen_ln_cfgs, max_paths=64, timeout_ms=60000, crosscheck=0)(_generate_ln)
+obligation("C13.generate_lognormal", function=FF + "_generate_fading_coefficients", configs=_gen_ln_cfgs, max_paths=64, timeout_ms=60000, crosscheck=2)(_generate_ln)
 
 
 # ================================================================================================ forward with generated gains
@@ -325,7 +325,7 @@ def _forward_ln(ctx, cfg):
     return forward(ctx, cfg)
 
 
-obligation("C13.forward_lognormal", function=FF + "forward; " + FF + "_generate_fading_coefficients; " + FF + "_expand_coefficients; " + N.FU + ":snr_to_noise_power", configs=lambda tier: _fwd_cfgs(tier, ("lognormal",)), max_paths=64, timeout_ms=120000, crosscheck=0)(_forward_ln)
+obligation("C13.forward_lognormal", function=FF + "forward; " + FF + "_generate_fading_coefficients; " + FF + "_expand_coefficients; " + N.FU + ":snr_to_noise_power", configs=lambda tier: _fwd_cfgs(tier, ("lognormal",)), max_paths=64, timeout_ms=120000, crosscheck=2)(_forward_ln)
 
 
 # ================================================================================================ noise stage for arbitrary supplied gains
